@@ -30,9 +30,9 @@ import (
 	"github.com/nuts-foundation/nuts-node/storage"
 	"github.com/nuts-foundation/nuts-node/vdr"
 	"github.com/nuts-foundation/nuts-node/vdr/didnuts/didstore"
+	"github.com/nuts-foundation/sqlite"
 	"github.com/sirupsen/logrus"
 	"github.com/spf13/pflag"
-	"github.com/nuts-foundation/sqlite"
 	"gorm.io/gorm"
 	"verifsim/seams"
 	"verifsim/simkit"
@@ -255,6 +255,8 @@ type World struct {
 	RecordAPI bool
 	APILog    [][]byte
 	apiMu     sync.Mutex
+	// OnPanic, if set, receives panics of HTTP handlers instead of letting them unwind.
+	OnPanic func(where string, v interface{}, stack []byte)
 }
 
 // New creates an empty world for a run.
